@@ -58,24 +58,21 @@ def mismatchExn (decl got : Schema) : Exn :=
 /-- `set(a) == set(b)` -/
 def sameSet (a b : List Str) : Bool := a.all (fun x => b.contains x) && b.all (fun x => a.contains x)
 
-def natStr (n : Nat) : Str := (Nat.repr n).toList
-
-/-- one name of `RecordBatch.select(names)`: the column must be unique (`KeyError` otherwise) -/
-def selectCol (cols : List Col) (n : Str) : Except Exn Col :=
+/-- one name of `RecordBatch.select(names)`: the column must be unique (pyarrow raises `KeyError` otherwise) -/
+def selectCol (cols : List Col) (n : Str) : Option Col :=
   match cols.filter (fun c => c.name = n) with
-  | [c] => .ok c
-  | l => .error ⟨"KeyError".toList,
-      "'Field \"".toList ++ n ++ "\" exists ".toList ++ natStr l.length ++ " times in schema'".toList, none⟩
+  | [c] => some c
+  | _ => none
 
-def selectCols (cols : List Col) : List Str → Except Exn (List Col)
-  | [] => .ok []
+def selectCols (cols : List Col) : List Str → Option (List Col)
+  | [] => some []
   | n :: r =>
     match selectCol cols n with
-    | .error e => .error e
-    | .ok c =>
+    | none => none
+    | some c =>
       match selectCols cols r with
-      | .error e => .error e
-      | .ok cs => .ok (c :: cs)
+      | none => none
+      | some cs => some (c :: cs)
 
 /-- `RecordBatch.cast(target_schema)` column by column (names already agree position-wise) -/
 def castCols (env : Env) : List Col → Schema → Option (List Col)
@@ -95,7 +92,9 @@ def coerceInput (env : Env) (decl : Schema) (b : IBatch) : Except Exn IBatch :=
   else if !sameSet (names b.schema) (names decl) then .error (mismatchExn decl b.schema)
   else
     match (if names b.schema ≠ names decl then
-             (match selectCols b.cols (names decl) with | .ok cs => Except.ok (IBatch.mk cs) | .error e => .error e)
+             (match selectCols b.cols (names decl) with
+              | some cs => Except.ok (IBatch.mk cs)
+              | none => .error (mismatchExn decl b.schema))      -- a declared name occurs twice: KeyError → TypeError
            else .ok b) with
     | .error e => .error e
     | .ok b1 =>
@@ -284,9 +283,9 @@ def st0 (unread : List Item) (live : Bool) : St :=
 Returns the events of the open and the session (none when the open raised). -/
 def openS (m : Method) : List Ev × Option St :=
   match m.init, m.header with
-  | some e, some _ => ([errEv e], none)                        -- `_read_stream_header` meets the error stream
-  | some e, none => ([], some (st0 [.err e] false))            -- unread until the first read (see known finding C01)
-  | none, some h => (lgEv m.initLogs ++ [.header h], some (st0 [] true))     -- sink flushed into the header stream
+  | some e, some _ => (lgEv m.initLogs ++ [errEv e], none)     -- `_read_stream_header` meets the logs, then the error
+  | some e, none => ([], some (st0 (logItems m.initLogs ++ [.err e]) false))   -- unread until the first read (C01 finding)
+  | none, some h => (lgEv m.initLogs ++ [.header h], some (st0 [] true))      -- sink flushed into the header stream
   | none, none => ([], some (st0 (logItems m.initLogs) true))  -- sink flushed at the start of the output stream
 
 end PipeM
@@ -458,7 +457,7 @@ def session (c : Cfg) (m : Method) (pr : Http.InitParse) : St :=
 /-- `_make_stream_caller` + `_init_http_stream_session` -/
 def openS (c : Cfg) (m : Method) : List Ev × Option St :=
   match m.init with
-  | some e => ([errEv e], none)
+  | some e => (lgEv m.initLogs ++ [errEv e], none)            -- the sink's logs precede the error in the error stream
   | none =>
     match (Http.parseInit (initBody c m).1).err, (Http.parseInit (initBody c m).1).pending, m.header with
     | some e, [], none => ((Http.parseInit (initBody c m).1).evs ++ [e], none)   -- nothing delivered yet: raised at open
